@@ -41,21 +41,7 @@ def run_case(spec, ctx):
     ms = models.gen_model(rng, prof, depth=2, n_comp=spec.get("n_comp", 2), n_inter=rng.choice([3, 5, 8, 12]), n_states=rng.choice([2, 3, 4, 5]), shape=rng.choice(["random", "unused", "diamond", "fan"]))
     if spec.get("repeat_helper"):
         # a helper definition repeated verbatim in two components (accepted by the loader), used in both
-        comps = []
-        for a in ms.assigns:
-            if a[2] and a[2] not in comps:
-                comps.append(a[2])
-        if len(comps) >= 2:
-            new = []
-            done = set()
-            for (n_, r_, c_, t_) in ms.assigns:
-                if c_ in comps[:2] and c_ not in done:
-                    done.add(c_)
-                    new.append(("RTF_h", "8.314 * 310.0 / 96.485", c_, None))
-                    new.append((n_, f"({r_}) + RTF_h * 0.001", c_, t_))
-                else:
-                    new.append((n_, r_, c_, t_))
-            ms.assigns = new
+        if models.repeat_helper(ms):
             cn["repeated_helper"] = 1
     perms = list(textmut.permutations(ms, rng, n=8 if spec.get("tier") == "quick" else 20, split_declarations=spec["i"] % 3 == 1))
     base_text = perms[0][1]
